@@ -398,9 +398,9 @@ class _resolve_called_lambdas(ast.NodeTransformer):
                 result = self.visit(lambda_node.body)
                 self._arg_map_list.pop()
                 return result
-        else:
-            return self.generic_visit(node)
-        return node
+
+        # Not something we can inline - but whatever is inside still has to be looked at
+        return self.generic_visit(node)
 
     def _visit_hiding(self, names: List[str], nodes: List[ast.AST]) -> List[Any]:
         "Visit `nodes` with `names` bound locally: they hide arguments of the same name."
